@@ -215,6 +215,7 @@ def run(ctx):
     ok = ctx.build_models(MODELS)
     if ok:
         ctx.build_props()
+        ctx.build_props("Props/C02p.vo")  # survival probability L_i/L_max as the measure of the rule's acceptance set (Coquelicot)
     cases = load_corpus("C02") + gen_cases(ctx)
     n_eval = nt = 0
     try:
